@@ -130,3 +130,26 @@ Proof.
     [apply rule_const_init_codes | apply rule_const_not_fb_codes | apply rule_global_const_codes | apply rule_task_codes
     | apply rule_enum_value_codes | apply rule_fb_call_codes | apply rule_stdlib_codes].
 Qed.
+
+(* ---- every used type and function block is declared (P0022): xform_resolve_late_bound_type_initializer, modelled on the
+        type facts of the library (Model/Rules.v: xform_type_init; compared with the transformation on every run) ---- *)
+(* with distinct type names, and no reference to a type of a kind the transformation answers 'not implemented' for: accepted
+   exactly when every referenced type is elementary, a standard function block, or declared *)
+Theorem C02_types_declared_exact : forall fs, NoDup (map fst (decls fs)) -> no_rtodo (decls fs) fs ->
+  ((exists ks, xform_type_init fs = inl ks) <->
+   forall ty pos, In (TInit IkLate ty pos) fs -> resolve1 (decls fs) ty <> RUndeclared).
+Proof. exact xform_type_init_accepts. Qed.
+
+Theorem C02_undeclared_means : forall tab ty,
+  resolve1 tab ty = RUndeclared <->
+  ~ In (key ty) elementary_types /\ ~ In (key ty) unsupported_types /\ ~ In (key ty) (map fst tab).
+Proof. exact resolve1_undeclared. Qed.
+
+(* ... and the answer is the list of ALL references to undeclared types, in order, or the new initializer kinds *)
+Theorem C02_types_answer : forall fs, NoDup (map fst (decls fs)) -> no_rtodo (decls fs) fs ->
+  xform_type_init fs = answer (flat_map (undeclared_diag (decls fs)) fs) (flat_map (new_kind (decls fs)) fs).
+Proof. exact xform_type_init_spec. Qed.
+
+Theorem C02_type_transformation_reports_its_problems : forall fs ds d, xform_type_init fs = inr ds -> In d ds ->
+  In (fst d) [P_DefinitionNameDuplicated; P_UndeclaredUnknownType; P_NotImplemented].
+Proof. exact xform_type_init_codes. Qed.
